@@ -261,18 +261,25 @@ pub fn run_lock(line: &str) -> String {
                 None => out.push("nohandle".to_string()),
                 Some(db) => {
                     *gated.rdb.lock().unwrap() = (true, false, false);
+                    // write until a flush has been started and its thread is parked in the creation
+                    // of the table file (never more than one rotation: a second one would wait for
+                    // the parked flush)
                     let mut wrote = true;
-                    for i in 0..4u8 {
+                    let mut parked = false;
+                    for i in 0..6u8 {
                         if db.put(WriteOptions::default(), vec![0xfd, i], vec![i; 1500]).is_err() {
                             wrote = false;
+                            break;
+                        }
+                        let deadline = Instant::now() + Duration::from_millis(if i >= 2 { 2000 } else { 50 });
+                        while !gated.rdb.lock().unwrap().1 && Instant::now() < deadline {
+                            std::thread::sleep(Duration::from_micros(200));
+                        }
+                        if gated.rdb.lock().unwrap().1 {
+                            parked = true;
+                            break;
                         }
                     }
-                    // wait until the background thread is parked in the creation of the table
-                    let deadline = Instant::now() + Duration::from_secs(10);
-                    while !gated.rdb.lock().unwrap().1 && Instant::now() < deadline {
-                        std::thread::sleep(Duration::from_micros(200));
-                    }
-                    let parked = gated.rdb.lock().unwrap().1;
                     let closer = std::thread::Builder::new()
                         .name("case-lock-closer".to_string())
                         .spawn(move || drop(db))
